@@ -484,6 +484,17 @@ pub fn run(run: &Run) {
             run.nontrivial(1);
         }
     });
+    // ---- pseudo-random dense matrices of every order: LU structure, SPD Cholesky --------------------
+    let per = run.tier.pick(6u64, 40u64);
+    (2..=32usize).into_par_iter().for_each(|n| {
+        for seed in 0..per {
+            let a = lcg_dense(n, n, seed * 977 + n as u64);
+            let d = if n <= 6 { det_bareiss(&a.iter().map(|v| (*v * 8.0) as i128).collect::<Vec<_>>(), n).map(|d| d as f64 / 8f64.powi(n as i32)) } else { None };
+            lu_suite(run, "random-dense", &a, n, d);
+            chol_suite(run, "random-spd", &gram_spd(&a, n), n, true, None);
+            run.nontrivial(1);
+        }
+    });
     // ---- triangular systems ----------------------------------------------------------------------
     let tl = [1.0, -2.0, 0.5, 3.0];
     for n in 1..=12usize {
